@@ -200,7 +200,7 @@ def _run_case(case, ctx):
         mask = (rs.uniform(size=X.shape) < 0.8).astype(float)
         filler = float(gen.choice(rs, [0.0, 3.0])) * float(np.max(np.abs(X)))
         Xin = X * mask + filler * (1 - mask)
-        mopts = {k_: v_ for k_, v_ in opts.items() if k_ in ("init", "sparsity", "normalize_factors", "cvg_criterion")}
+        mopts = {k_: v_ for k_, v_ in opts.items() if k_ in ("init", "sparsity", "normalize_factors", "cvg_criterion", "linesearch")}
         recs = []
 
         def mcb(dec, error=None):
@@ -210,7 +210,7 @@ def _run_case(case, ctx):
             else:
                 snap_ = decomp.snapshot(dec)
             recs.append((snap_, None if error is None else float(error)))
-        for k in (1, 2, 4):
+        for k in ((1, 2, 4) if not mopts.get("linesearch") else (2, 8, 11)):     # accepted line-search jumps start at sweep 7
             del recs[:]
             out, errs = D.parafac(Xin.copy(), rank, n_iter_max=k, mask=mask.copy(), random_state=seed, tol=tiny, return_errors=True, callback=mcb, **mopts)
             pairs = [(out, float(errs[-1]), "last of %d" % k)] if errs else []
@@ -240,7 +240,12 @@ def _run_case(case, ctx):
 
         def cb(dec, error=None):
             rec.append((decomp.snapshot(dec), None if error is None else float(error)))
-        decomp.run(algo, data, rank, K, dict(opts), seed, tol=tiny, callback=cb)
+        stop_off = algo == "randomised_parafac" and case["idx"] % 2 == 1
+        if stop_off:
+            # both stopping rules switched off (tol=0, max_stagnation=0): the callback is the only consumer of the error
+            decomp.run(algo, data, rank, K, dict(opts, max_stagnation=0), seed, tol=0, callback=cb)
+        else:
+            decomp.run(algo, data, rank, K, dict(opts), seed, tol=tiny, callback=cb)
         for j, (dec, e) in enumerate(rec):
             if e is None:
                 ctx.count("values/callback-without-error")
